@@ -307,6 +307,11 @@ func c16Body(configured bool) func(rc *RunCtx) {
 			gapMs    int
 		}
 		sizes := func() int {
+			if simrt.Chance(1, 40) {
+				// a very large record: many times the buffer limit, beyond the sizes at which a
+				// reusable buffer is usually kept (64 KiB, 256 KiB)
+				return 66000 + simrt.Choose(240000)
+			}
 			switch simrt.Choose(10) {
 			case 0:
 				return 0
